@@ -53,8 +53,8 @@ theorem C18_record_layout :
     Generated.recordDecode =
       [("get", 16, "-", "2", ""), ("get", 32, "2", "-", ""), ("copy", 0, "-", "-", "kvSizeBuf"),
        ("get", 32, "len(data) - 4", "-", ""), ("crc", 32, "-", "len(data) - 4", "")] ∧
-    Generated.encodedRecordSizeExpr = some "2 + 4 + kvSize + 4" ∧
-    Generated.deleteBitExprs = ["valLen |= 1 << 31", "valueSize & (1 << 31)", "valueSize &^= 1 << 31"] := by
+    Generated.encodedRecordSizeExpr = some "6 + kvSize + 4" ∧
+    Generated.deleteBitExprs = ["valLen |= 2147483648", "valueSize & 2147483648", "valueSize &^= 2147483648"] := by
   decide
 
 /-- 31 slots of 16 bytes and the 8-byte next pointer fit a 512-byte bucket. -/
